@@ -238,6 +238,7 @@ def check(ctx):
     B.must_raise("G10", app, "grid ufunc input on the wrong position", lambda: run_apply(P, "(X:center)->(X:left)", [(AX,)], args=lambda: (make_da("da", [dimsym("AX", "left")]),), boundary_width={"X": (1, 0)}))
     B.must_raise("G10", app, "grid ufunc: wrong position on the second of two inputs", lambda: run_apply(P, "(X:center),(X:left)->(X:center)", [(AX,), (AX,)], args=lambda: (make_da("a", [dimsym("AX", "center")]), make_da("b", [dimsym("AX", "right")])), boundary_width={"X": (1, 1)}))
     B.must_raise("G10", app, "grid ufunc: more arguments than the signature has inputs", lambda: run_apply(P, "(X:center)->(X:left)", [(AX,), (AX,)], args=lambda: (make_da("a", [dimsym("AX", "center")]), make_da("b", [dimsym("AX", "center")])), boundary_width={"X": (1, 0)}))
+    B.must_raise("G10", app, "grid ufunc: fewer arguments and axis entries than the signature has inputs", lambda: run_apply(P, "(X:center),(X:center)->(X:left)", [(AX,)], args=lambda: (make_da("a", [dimsym("AX", "center")]),), boundary_width={"X": (1, 0)}))
     B.must_raise("G10", app, "grid ufunc: fewer arguments than axis entries", lambda: run_apply(P, "(X:center),(X:center)->(X:left)", [(AX,), (AX,)], args=lambda: (make_da("a", [dimsym("AX", "center")]),), boundary_width={"X": (1, 0)}))
     B.must_raise("G10", app, "grid ufunc: signature position the axis lacks", lambda: run_apply(P, "(X:outer)->(X:center)", [(AX,)], args=lambda: (make_da("a", [dimsym("AX", "outer")]),), positions=["center", "left"], axnames=("AX",)))
     B.must_raise("G10", app, "grid ufunc: signature position the axis lacks, second pair of one argument",
